@@ -808,6 +808,31 @@ func candidates(r *rand.Rand, s *schema) []cand {
 					return c, v, true
 				}})
 			}
+			if ri := findRule(n.rules, "regex"); ri >= 0 && n.kind == kStr && n.mode == "plain" {
+				// the EXAMPLE is moved across the boundary of the expression (the edits above move the rule):
+				// a string derived from the good example — prefix, suffix, line break, one character
+				// replaced / deleted / inserted, case, doubled — that the expression does not match any more
+				re, err := regexp.Compile(n.rules[ri].s)
+				lbl := "leaf"
+				if isTypeRoot {
+					lbl = "type-rule"
+				}
+				good := n.str
+				if err == nil {
+					out = append(out, cand{label: lbl, desc: "regex-example-derived", weight: 1, where: where, id: id, build: func() (*schema, []int, bool) {
+						for tries := 0; tries < 8; tries++ {
+							t, _ := derive(r, good, -1)
+							if printable(t) && !re.MatchString(t) {
+								c := s.clone()
+								cn := c.find(id)
+								cn.str, cn.lit, cn.fmt = t, quoteJSON(t), ""
+								return c, []int{id}, true
+							}
+						}
+						return nil, nil, false
+					}})
+				}
+			}
 		case n.mode == "format":
 			i := findRule(n.rules, "type")
 			f := n.rules[i].s
@@ -826,10 +851,18 @@ func candidates(r *rand.Rand, s *schema) []cand {
 					cn := c.find(e.id)
 					// a broken text that is not longer than the good one (a longer one might satisfy a
 					// minLength member of an or set on the way) and is no item of any enum
+					// two times in three the broken text is DERIVED from the boundary of the format (fmtstream.go: month
+					// lengths and leap years, field bounds, uuid anomalies, address / uri parts; rejected by
+					// the oracle of the harness), the others come from the fixed list of broken strings
 					var bad []string
 					for _, b := range formatBad[f] {
 						if len(b) <= len(cn.str) && !c.hasEnumItem(quoteJSON(b)) {
 							bad = append(bad, b)
+						}
+					}
+					if r.Intn(3) != 0 {
+						if b := derivedBad(r, f, len(cn.str)); b != "" && !c.hasEnumItem(quoteJSON(b)) {
+							bad = []string{b}
 						}
 					}
 					if len(bad) == 0 {
@@ -1199,7 +1232,13 @@ const ruleText = "random example trees (objects/arrays/scalars, depth<=4, <=36 n
 	"nontrivial = corrupted node nested, inside an added type, or inside an or member. (k) dedicated stream of the known finding K-C04-or-minitems. " +
 	"(h) histories: 2-3 root schemas sharing type OBJECTS (a shared structure placed by shortcut whose scalars name scalar types; scalar types naming types), each root binding the names to its own or shared objects, " +
 	"some roots with one corrupted binding violated by a value inside a shared object; build/Check calls in several orders and their reverses: every root's Check must fail at the violating value / succeed exactly as with fresh objects; " +
-	"nontrivial = good and bad roots sharing at least one object."
+	"nontrivial = good and bad roots sharing at least one object. " +
+	"(f) EXAMPLE values at the boundary of a format / a regular expression (fmtstream.go, generators of x/sem-rules-full): one string example under `type: F` (F = date / datetime / uuid / email / uri), under an or list of format names / {type: F} rule-sets / a {type: string, regex} rule-set / type names of other kinds, or under `regex` (expression built from parts: literals, classes, groups, quantifiers, 20 anchor forms, flags, top-level alternation, degenerate expressions); " +
+	"the string is DERIVED: dates one day around the end of every month in leap / common / century years (1900, 2000, 2100 ...), day 0 / 32, month 0 / 13, unpadded fields, other separators, full-width digits; datetimes the same plus hour 23 / 24, minute and second 59 / 60, fraction of 9 / 10 digits, zone bounds and zone forms; uuids in four forms with one anomaly (length -1 / +1, character next to the hex ranges, hyphen moved, braces unbalanced, urn prefix altered, multi-byte character); e-mail local x domain x wrapper; uri scheme x separator x authority x tail; " +
+	"for every format and for the strings that match a regex body: prefix, suffix, both, line break after / before, CRLF, one character replaced by a neighbour / deleted / inserted, case changed, doubled, empty; good values of the same and of other formats. " +
+	"Verdict by an oracle evaluated in the harness (calendar cross-checked with time.Parse, RFC 3339 by time.Parse, the four uuid forms, net/mail without blank / angle-bracket wrapping, net/url absolute with host, regexp.MatchString): REJECTED => Check fails at the offset of the example; ACCEPTED => Check succeeds and the plain-JSON example validates. " +
+	"Placement: root, property, array item (first / later, next to a good sibling under the same rule), grafted anywhere into a generated schema (also inside a structured type placed by shortcut); the rule on the example itself, behind {type: @T} or an or member @T (one or two hops), or the example is that of an added type (referenced by a good value, placed by a value shortcut, or unreferenced). " +
+	"The main stream uses the same derivations: good format examples are boundary-built values the oracle accepts, two in three format-broken corruptions are boundary-built values it rejects, regex-example-derived moves the example (not the rule) across the expression. Stats f_*."
 
 // Run is the entry point of `vh c04-check-example`.
 func Run(args []string) {
@@ -1208,6 +1247,7 @@ func Run(args []string) {
 	nShort := vh.Pick(1500, 40000)
 	nKnown := vh.Pick(40, 400)
 	nHist := vh.Pick(2500, 60000)
+	nFmt := vh.Pick(16000, 400000)
 	type job struct {
 		stream, i int
 	}
@@ -1230,6 +1270,8 @@ func Run(args []string) {
 					results <- oneSchema(j.i, true, 3)
 				case 4:
 					results <- oneHistory(j.i)
+				case 5:
+					results <- oneFormat(j.i)
 				default:
 					results <- oneKnown(j.i)
 				}
@@ -1248,6 +1290,9 @@ func Run(args []string) {
 		}
 		for i := 0; i < nHist; i++ {
 			jobs <- job{4, i}
+		}
+		for i := 0; i < nFmt; i++ {
+			jobs <- job{5, i}
 		}
 		close(jobs)
 		wg.Wait()
